@@ -110,7 +110,7 @@ def _dec(x):
 
 class SymObj(SymRef):
     """an arbitrary user object; ``kind`` in 'function', 'instance' (callable instance), 'method', 'builtin'"""
-    __slots__ = ('kind', 'slots', 'defaults', 'postponed', 'entry')
+    __slots__ = ('kind', 'slots', 'defaults', 'postponed', 'entry', 'truthy')
 
     def __init__(self, name, kind='function', slots=None, defaults=None):
         SymRef.__init__(self, z3.Const(name, RefS), label=name)
@@ -119,6 +119,10 @@ class SymObj(SymRef):
         self.defaults = dict(defaults or {})      # attributes every object of this kind has (concrete presence)
         self.postponed = z3.Bool('postponed_%s' % name)
         self.entry = None
+        self.truthy = None      # None: an object without __bool__/__len__ (always true); else a Bool term
+
+    def __bool__(self):
+        return True if self.truthy is None else _dec(self.truthy)
 
     # ---- ghost: attribute state at entry, for the frame clause instance_dict(o) == attrs0(o)
     def snapshot(self):
